@@ -27,6 +27,59 @@ pub open spec fn rle_expand(items: Seq<(TreeCodeType, u8)>) -> Seq<u8>
         })
     }
 }
+/// RFC 1951 3.2.7 reading of the run-length items: symbol 16 copies the PREVIOUS code length (0 after a zero run)
+pub open spec fn rle_expand_rfc(items: Seq<(TreeCodeType, u8)>) -> Seq<u8>
+    decreases items.len()
+{
+    if items.len() == 0 { Seq::<u8>::empty() } else {
+        let before = rle_expand_rfc(items.drop_last()); let it = items.last();
+        before + (match it.0 {
+            TreeCodeType::Code => seq![it.1],
+            TreeCodeType::Repeat => Seq::new(it.1 as nat, |i: int| if before.len() == 0 { 0u8 } else { before.last() }),
+            _ => Seq::new(it.1 as nat, |i: int| 0u8),
+        })
+    }
+}
+/// no symbol 16 copies a length that differs from the last explicit one (i.e. none follows a zero run that follows a
+/// non-zero explicit length): every header zlib, zlib-ng, libdeflate and miniz_oxide write is of this kind
+pub open spec fn rle_plain(items: Seq<(TreeCodeType, u8)>) -> bool {
+    forall|i: int| 0 <= i < items.len() && items[i].0 == TreeCodeType::Repeat && items[i].1 > 0 ==> ({
+        let b = rle_expand_rfc(items.subrange(0, i));
+        rle_prev(items.subrange(0, i)) == (if b.len() == 0 { 0u8 } else { b.last() })
+    })
+}
+/// C03: on such headers the code lengths this library decodes are the ones RFC 1951 defines
+pub proof fn lemma_rle_rfc(items: Seq<(TreeCodeType, u8)>)
+    requires rle_plain(items),
+    ensures rle_expand(items) == rle_expand_rfc(items),
+    decreases items.len()
+{
+    if items.len() > 0 {
+        let n = items.len() as int;
+        let before = items.drop_last();
+        assert(rle_plain(before)) by {
+            assert forall|i: int| 0 <= i < before.len() && before[i].0 == TreeCodeType::Repeat && before[i].1 > 0 implies ({
+                let b = rle_expand_rfc(before.subrange(0, i));
+                rle_prev(before.subrange(0, i)) == (if b.len() == 0 { 0u8 } else { b.last() }) }) by {
+                assert(before.subrange(0, i) =~= items.subrange(0, i));
+                assert(items[i] == before[i]);
+            }
+        }
+        lemma_rle_rfc(before);
+        assert(items.subrange(0, n - 1) =~= before);
+        let it = items.last();
+        if it.0 == TreeCodeType::Repeat {
+            if it.1 > 0 {
+                assert(items[n - 1] == it);
+                let b = rle_expand_rfc(before);
+                assert(Seq::new(it.1 as nat, |i: int| rle_prev(before)) =~= Seq::new(it.1 as nat, |i: int| if b.len() == 0 { 0u8 } else { b.last() }));
+            } else {
+                let b = rle_expand_rfc(before);
+                assert(Seq::new(it.1 as nat, |i: int| rle_prev(before)) =~= Seq::new(it.1 as nat, |i: int| if b.len() == 0 { 0u8 } else { b.last() }));
+            }
+        }
+    }
+}
 pub proof fn lemma_rle_expand_len(items: Seq<(TreeCodeType, u8)>)
     ensures rle_expand(items).len() == rle_total(items),
     decreases items.len()
